@@ -482,6 +482,127 @@ theorem udp_drop_iff_full (c : Nat) (ops : List UdpOp) (buf : Bytes) (n : Nat) :
     rw [e]
     exact ⟨rfl, ⟨fun _ => by omega, fun _ => rfl⟩, fun _ => ⟨rfl, rfl, rfl⟩, fun h1 => absurd h1 hc⟩
 
+/-! ## The `Listen` loop with a held processing goroutine is the packet queue with one more slot
+
+The `udpl` stream drives the real `Listen` loop on a socket while a gated parser holds the processing goroutine, and
+compares it with `UdpQ` of capacity `cap + 1`. That choice of model is justified here: the two-stage model `UdpL` (one
+packet in flight + a channel of `cap`) refines `UdpQ (cap + 1)` step by step, so every `UdpQ` theorem above (accounting,
+drop iff full, a datagram's lines are those of its own bytes) speaks about the loop with its consumer behind as well. -/
+
+inductive UdpLOp
+  | recv (buf : Bytes) (n : Nat)
+  | release
+  deriving Repr
+
+def stepUdpL (s : UdpL) : UdpLOp → UdpL
+  | .recv buf n => s.recv buf n
+  | .release => s.release.getD s
+
+def UdpLOp.toQ : UdpLOp → UdpOp
+  | .recv buf n => .enq buf n
+  | .release => .proc
+
+theorem udpl_recv_refines (s : UdpL) (h : s.Inv) (buf : Bytes) (n : Nat) :
+    (s.recv buf n).abs = s.abs.enqueue buf n ∧ (s.recv buf n).Inv := by
+  unfold UdpL.Inv at h
+  cases hi : s.inflight with
+  | none =>
+    have hq := h hi
+    constructor
+    · simp [UdpL.recv, UdpL.abs, UdpQ.enqueue, hi, hq]
+    · intro h2
+      simp [UdpL.recv, hi, hq] at h2
+  | some p =>
+    by_cases hc : s.queue.length < s.cap
+    · constructor
+      · simp [UdpL.recv, UdpL.abs, UdpQ.enqueue, hi, hc]
+      · intro h2; simp [UdpL.recv, hi, hc] at h2
+    · constructor
+      · have hc' : ¬ (s.queue.length + 1 < s.cap + 1) := by omega
+        simp [UdpL.recv, UdpL.abs, UdpQ.enqueue, hi, hc, hc']
+      · intro h2; simp [UdpL.recv, hi, hc] at h2
+
+theorem udpl_release_refines (s : UdpL) (h : s.Inv) :
+    (s.release.map UdpL.abs) = s.abs.process ∧ (∀ s', s.release = some s' → s'.Inv) := by
+  unfold UdpL.Inv at h
+  cases hi : s.inflight with
+  | none =>
+    have hq := h hi
+    constructor
+    · simp [UdpL.release, UdpL.abs, UdpQ.process, hi, hq]
+    · intro s' e; simp [UdpL.release, hi] at e
+  | some p =>
+    cases hq : s.queue with
+    | nil =>
+      constructor
+      · simp [UdpL.release, UdpL.abs, UdpQ.process, hi, hq]
+      · intro s' e
+        simp [UdpL.release, hi, hq] at e
+        subst e
+        intro _; rfl
+    | cons q rest =>
+      constructor
+      · simp [UdpL.release, UdpL.abs, UdpQ.process, hi, hq]
+      · intro s' e
+        simp [UdpL.release, hi, hq] at e
+        subst e
+        intro h2; simp at h2
+
+theorem udpl_step_refines (s : UdpL) (h : s.Inv) (op : UdpLOp) :
+    (stepUdpL s op).abs = stepUdp s.abs op.toQ ∧ (stepUdpL s op).Inv := by
+  cases op with
+  | recv buf n => exact udpl_recv_refines s h buf n
+  | release =>
+    obtain ⟨h1, h2⟩ := udpl_release_refines s h
+    cases hr : s.release with
+    | none =>
+      rw [hr] at h1
+      simp only [stepUdpL, UdpLOp.toQ, stepUdp, hr, Option.getD_none]
+      rw [← h1]
+      exact ⟨rfl, h⟩
+    | some s' =>
+      rw [hr] at h1
+      simp only [stepUdpL, UdpLOp.toQ, stepUdp, hr, Option.getD_some]
+      rw [← h1]
+      exact ⟨rfl, h2 s' hr⟩
+
+/-- **The `Listen` loop with its consumer held back behaves as the packet queue with `cap + 1` slots**, for every
+    sequence of arrivals and releases: same counters, same pending packets in the same order, same lines handed on. -/
+theorem udpl_refines_queue (c : Nat) (ops : List UdpLOp) :
+    (ops.foldl stepUdpL { cap := c }).abs = runUdp { cap := c + 1 } (ops.map UdpLOp.toQ) ∧
+    (ops.foldl stepUdpL { cap := c }).Inv := by
+  have gen : ∀ (ops : List UdpLOp) (s : UdpL), s.Inv →
+      (ops.foldl stepUdpL s).abs = runUdp s.abs (ops.map UdpLOp.toQ) ∧ (ops.foldl stepUdpL s).Inv := by
+    intro ops
+    induction ops with
+    | nil => intro s h; exact ⟨rfl, h⟩
+    | cons op ops ih =>
+      intro s h
+      obtain ⟨e, h'⟩ := udpl_step_refines s h op
+      obtain ⟨e2, h2⟩ := ih (stepUdpL s op) h'
+      refine ⟨?_, h2⟩
+      simp only [List.foldl_cons, List.map_cons, runUdp] at e2 ⊢
+      rw [e2, e]
+  exact gen ops { cap := c } (fun _ => rfl)
+
+/-- hence a datagram is dropped by the loop iff one packet is in flight and `cap` are waiting -/
+theorem udpl_drop_iff_full (c : Nat) (ops : List UdpLOp) (buf : Bytes) (n : Nat) :
+    let s := ops.foldl stepUdpL { cap := c }
+    ((s.recv buf n).drops = s.drops + 1 ↔ s.inflight.toList.length + s.queue.length = c + 1) := by
+  intro s
+  obtain ⟨e, hinv⟩ := udpl_refines_queue c ops
+  have h1 := (udp_drop_iff_full (c + 1) (ops.map UdpLOp.toQ) buf n).2.1
+  rw [← e] at h1
+  have h2 := (udpl_recv_refines s hinv buf n).1
+  have h3 : (s.recv buf n).drops = (s.abs.enqueue buf n).drops := by rw [← h2]; rfl
+  rw [h3]
+  simpa [UdpL.abs] using h1
+
+-- non-vacuity: capacity 1; d1 goes in flight, d2 waits, d3 is dropped, a release hands d1 on and takes d2
+example :
+    let s := [UdpLOp.recv [100, 49] 2, .recv [100, 50] 2, .recv [100, 51] 2, .release].foldl stepUdpL { cap := 1 }
+    s.inflight = some [100, 50] ∧ s.queue = [] ∧ s.packets = 3 ∧ s.drops = 1 ∧ s.handled = [[100, 49]] := by decide
+
 /-! ## Non-vacuity -/
 
 /-- the payload `a\r\nbb\n\nc`: a CRLF line, an LF line, an empty line, an unterminated tail -/
